@@ -370,6 +370,10 @@ class Real:
         elif o == 6:
             opts[pool.SV] = vdef("class")
             opts[pool.MX] = vdef("entity", "T{a0}")
+        elif o == 7:
+            # a replacement field that reads an attribute OF the value (legal str.format syntax);
+            # only numbers have `.real` (and it equals them), anything else makes the render raise
+            opts[Vertex] = vdef(fmt="T{a0.real}")
         return opts
 
     def parse_puml(self, text):
